@@ -1508,19 +1508,22 @@ class AgProtocol(utils.EventEmitter):
         display: bytes | None = None,
         indicator: bytes = b'',
     ) -> None:
+        # An omitted <ind> means 0 (no indicator event reporting).
+        indicator_value = int(indicator) if indicator else 0
         if (
             int(mode) != 3
             or (keypad and int(keypad))
             or (display and int(display))
-            or int(indicator) not in (0, 1)
+            or indicator_value not in (0, 1)
         ):
             logger.error(
                 f'Unexpected values: mode={mode!r}, keypad={keypad!r}, '
                 f'display={display!r}, indicator={indicator!r}'
             )
             self.send_cme_error(CmeError.INVALID_INDEX)
+            return
 
-        self.indicator_report_enabled = bool(int(indicator))
+        self.indicator_report_enabled = bool(indicator_value)
         self.send_ok()
 
     def _on_cmee(self, enabled: bytes) -> None:
